@@ -20,7 +20,8 @@ open Logrange.Lql
 
 def grammar := Logrange.Generated.C12.grammar
 
-/-- `lql.ParseLql`: lexer, participle engine on the regenerated grammar (root `Lql`), typed application of captures.
+/-- `lql.ParseLql`: lexer, participle engine on the regenerated grammar (root `Lql`), typed application of captures,
+post-check (a Range without a time point is rejected).
 `dp` is the opaque date parser (`parseLqlDateTime`, property C20). -/
 def parseLql (dp : Bytes → Option Int) (text : Bytes) : Option Lql :=
   match lex text with
@@ -28,7 +29,7 @@ def parseLql (dp : Bytes → Option Int) (text : Bytes) : Option Lql :=
   | some ts =>
     match runEngine grammar "Lql" ts with
     | none => none
-    | some v => toLql dp (8 * ts.length + 50) v
+    | some v => toLqlChecked dp (8 * ts.length + 50) v
 
 /-- `lql.ParseExpr` / `lql.ParseSource` on tokens with explicit fuel -/
 def parseExprToks (f : Nat) (ts : List Tok) : Option Expr :=
@@ -154,12 +155,8 @@ theorem cex_bare_select :
     ∧ (parseLql dp0 (txt "SELECT")).map printedDates = some [] := by
   decide +kernel
 
-/-- F12g: `SELECT RANGE [` is accepted (both bounds nil) and prints `SELECT RANGE `, which is rejected -/
-theorem cex_empty_range :
-    (parseLql dp0 (txt "SELECT RANGE [")).map (printLql rd0) = some (txt "SELECT RANGE ")
-    ∧ (parseLql dp0 (txt "SELECT RANGE ")).isNone = true
-    ∧ (parseLql dp0 (txt "SELECT RANGE [")).map classEmptyRange = some true := by
-  decide +kernel
+/-! (F12g was repaired in /repo — 2681434: `ParseLql` rejects a Range without a time point; its counterexample is replaced
+by the positive theorems `parsed_range_has_time_point` / `range_prints_nonempty` below.) -/
 
 /-- the full statement is false for the code as it is (witness: bare `SELECT`) -/
 theorem not_C12_full : ¬ C12_full := by
@@ -267,6 +264,54 @@ example :
     ∧ (parseLql dpEx (txt "TRUNCATE MINSIZE 9223372036854775808")).map (printLql rdEx) = some (txt "TRUNCATE MINSIZE 9223372036854775808")
     ∧ ((parseLql dpEx (txt "TRUNCATE MINSIZE 9223372036854775808")).bind (fun l => parseLql dpEx (printLql rdEx l))).map
         (fun l => l.truncate.map (·.minSize)) = some (some (some (2^63))) := by
+  decide +kernel
+
+/-! ## RANGE — the repaired parser (2681434): positive theorems replacing the retired counterexample of F12g -/
+
+/-- **every accepted SELECT with a RANGE clause names at least one time point** (the post-check the extractor finds in
+`ParseLql` now: fact `parseLqlRejectsEmptyRange`) -/
+theorem parsed_range_has_time_point (dp : Bytes → Option Int) (text : Bytes) (l : Lql) (s : Select) (r : Range)
+    (hp : parseLql dp text = some l) (hs : l.select = some s) (hr : s.range = some r) :
+    r.p1.isSome = true ∨ r.p2.isSome = true := by
+  have hfact : Logrange.Generated.C12.parseLqlRejectsEmptyRange = true := by decide
+  unfold parseLql at hp
+  split at hp
+  · cases hp
+  · split at hp
+    · cases hp
+    · rename_i v _
+      unfold toLqlChecked at hp
+      cases hl : toLql dp _ v with
+      | none => rw [hl] at hp; cases hp
+      | some l0 =>
+        rw [hl] at hp
+        simp only [Option.bind_some, postCheck, hfact, Bool.true_and] at hp
+        split at hp
+        · cases hp
+        · rename_i hne
+          cases hp
+          simp only [hasEmptyRange, hs, hr, Bool.and_eq_true, Option.isNone_iff_eq_none] at hne
+          cases h1 : r.p1 with
+          | some _ => left; rfl
+          | none =>
+            cases h2 : r.p2 with
+            | some _ => right; rfl
+            | none => exact absurd ⟨h1, h2⟩ hne
+
+/-- … so `Range.makeString` never prints the bare blank that made `SELECT RANGE [` unparsable: at least the blank and
+a quoted instant -/
+theorem range_prints_nonempty (rd : Int → Bytes) (r : Range) (h : r.p1.isSome = true ∨ r.p2.isSome = true) :
+    3 ≤ (printRange rd r).length := by
+  cases h2 : r.p2 with
+  | some v2 => simp [printRange, h2, printDate, GoLib.quote, bs, Go.ofAscii] <;> omega
+  | none =>
+    cases h1 : r.p1 with
+    | some v1 => simp [printRange, h2, h1, printDate, GoLib.quote] <;> omega
+    | none => simp [h1, h2] at h
+
+/-- the old witness is rejected by the model as it is by the code; the bracketed spellings with a time point are not -/
+example : (parseLql dp0 (txt "SELECT RANGE [")).isNone = true ∧ (parseLql dp0 (txt "select from a=b range [ limit 5")).isNone = true
+    ∧ (parseLql dpEx (txt "select range [\"2019-01-02 12:34:55.500000000 +0000 UTC\"")).map hasEmptyRange = some false := by
   decide +kernel
 
 end Logrange.Props.C12
